@@ -175,7 +175,9 @@ def gen_interaction(rng, iid, opts, cfgs):
         ia['pub'] = pub
         ia['sub'] = gen_sub(rng, resp.get('count', 0), opts, True)
     if kind in ('stream', 'channel') and rng.random() < cancels:
-        if rng.random() < 0.5:
+        if rng.random() < 0.08:
+            ia['sub']['cancel_in_subscribe'] = True
+        elif rng.random() < 0.5:
             ia['sub']['cancel_after'] = rng.randint(1, max(1, ia['resp'].get('count', 1)))
         else:
             ia['sub']['cancel_at'] = _pick(rng, [(2, 0.0), (2, round(rng.uniform(0, 0.01), 5))])
